@@ -243,3 +243,17 @@ theorem Stage.recoverable_sync {b : Bool} {s : Stage} (ha : s.async = false) :
     cases o <;> simp
 
 end LinVerif.Pipeline
+
+namespace LinVerif.Pipeline
+
+/-- one step, decomposed, keeping the successor state opaque: its shared part and every weighted sum -/
+theorem stepAt_elim' {cfg : Cfg} {s s' : State} {n : Nat} (h : stepAt cfg s n = some s') :
+    ∃ pooled i rest, s.threads[n]? = some ⟨pooled, i :: rest⟩ ∧
+      s'.sh = (stepInstr cfg s.sh pooled i rest).sh ∧
+      ∀ w : Instr → Nat, tsum w s'.threads + csum w (i :: rest)
+        = tsum w s.threads + csum w (stepInstr cfg s.sh pooled i rest).code
+          + tsum w (stepInstr cfg s.sh pooled i rest).spawn := by
+  obtain ⟨pooled, i, rest, hget, rfl⟩ := stepAt_elim h
+  exact ⟨pooled, i, rest, hget, rfl, fun w => tsum_step (w := w) hget⟩
+
+end LinVerif.Pipeline
